@@ -555,9 +555,15 @@ func (idx *SelectorAndNamedPortIndex) UpdateEndpointOrSet(
 		newEndpointData.labels = labels
 	}
 	if len(parentIDs) > 0 {
-		parents := make([]*npParentData, len(parentIDs))
-		for i, pID := range parentIDs {
-			parents[i] = idx.getOrCreateParent(pID)
+		parents := make([]*npParentData, 0, len(parentIDs))
+		for _, pID := range parentIDs {
+			parent := idx.getOrCreateParent(pID)
+			if slices.Contains(parents, parent) {
+				// Ignore a repeated parent ID; we track the endpoint once per parent
+				// (and a repeat wouldn't change the inherited labels).
+				continue
+			}
+			parents = append(parents, parent)
 		}
 		newEndpointData.parents = parents
 	}
